@@ -106,7 +106,8 @@ def maskRow (o : COps R) (labels : List Nat) (i label : Nat) (r : List R) : List
   let r3 := if i + 1 < labels.length then zeroAt o r2 (labels.getD (i + 1) 0) else r2
   r3.dropLast
 
-theorem labelConfidence_eq (o : COps R) (probs : List (List R)) (labels al : List Nat)
+theorem labelConfidence_eq (hB : ∀ a a' : Nat, (Gen.Confidence.nextBorder (a : Int) (a' : Int)).toNat = (a + 1 + a') / 2)
+    (o : COps R) (probs : List (List R)) (labels al : List Nat)
     (i lb : Nat) :
     labelConfidence o probs labels al i lb =
       match labels[i]?, al[i]?, al[i+1]? with
@@ -122,9 +123,12 @@ theorem labelConfidence_eq (o : COps R) (probs : List (List R)) (labels al : Lis
             | none => none
             | some other => some (maxR o o.zero (o.sub labelProb other), (a + 1 + a') / 2)
       | _, _, _ => none := by
+  unfold labelConfidence
+  simp only [hB]
   rfl
 
-theorem labelConfidence_some {o : COps R} {probs : List (List R)} {labels al : List Nat}
+theorem labelConfidence_some (hB : ∀ a a' : Nat, (Gen.Confidence.nextBorder (a : Int) (a' : Int)).toNat = (a + 1 + a') / 2)
+    {o : COps R} {probs : List (List R)} {labels al : List Nat}
     {i lb : Nat} {c : R} {nb : Nat} (h : labelConfidence o probs labels al i lb = some (c, nb)) :
     ∃ label a a' row labelProb other,
       labels[i]? = some label ∧ al[i]? = some a ∧ al[i+1]? = some a' ∧ probs[a]? = some row ∧
@@ -132,7 +136,7 @@ theorem labelConfidence_some {o : COps R} {probs : List (List R)} {labels al : L
       maxL o ((((probs.drop lb).take (nb - lb)).map (maskRow o labels i label)).flatten)
         = some other ∧
       c = maxR o o.zero (o.sub labelProb other) := by
-  rw [labelConfidence_eq] at h
+  rw [labelConfidence_eq hB] at h
   split at h
   · rename_i label a a' h1 h2 h3
     split at h
@@ -342,10 +346,11 @@ theorem ProbsL.entry {C : ℕ} {probs : List (List R)} (hp : ProbsL C probs) {a 
 
 /-! ### `get_line_confidence` -/
 
-theorem labelConfidence_range {C : ℕ} {probs : List (List R)} (hp : ProbsL C probs)
+theorem labelConfidence_range (hB : ∀ a a' : Nat, (Gen.Confidence.nextBorder (a : Int) (a' : Int)).toNat = (a + 1 + a') / 2)
+    {C : ℕ} {probs : List (List R)} (hp : ProbsL C probs)
     {labels al : List Nat} {i lb : Nat} {c : R} {nb : Nat}
     (h : labelConfidence (cops R) probs labels al i lb = some (c, nb)) : 0 ≤ c ∧ c ≤ 1 := by
-  obtain ⟨label, a, a', row, labelProb, other, -, -, -, h4, h5, -, h7, rfl⟩ := labelConfidence_some h
+  obtain ⟨label, a, a', row, labelProb, other, -, -, -, h4, h5, -, h7, rfl⟩ := labelConfidence_some hB h
   have hlp := hp.entry h4 h5
   have hoth : 0 ≤ other := by
     have hm := maxL_mem h7
@@ -358,7 +363,8 @@ theorem labelConfidence_range {C : ℕ} {probs : List (List R)} (hp : ProbsL C p
   simp only [cops_zero, cops_sub]
   exact ⟨le_max_left _ _, max_le zero_le_one (by linarith [hlp.2])⟩
 
-theorem lineConfAux_range {C : ℕ} {probs : List (List R)} (hp : ProbsL C probs)
+theorem lineConfAux_range (hB : ∀ a a' : Nat, (Gen.Confidence.nextBorder (a : Int) (a' : Int)).toNat = (a + 1 + a') / 2)
+    {C : ℕ} {probs : List (List R)} (hp : ProbsL C probs)
     (labels al : List Nat) :
     ∀ (n i lb : Nat) (cs : List R), lineConfAux (cops R) probs labels al n i lb = some cs →
       cs.length = n ∧ ∀ c ∈ cs, 0 ≤ c ∧ c ≤ 1 := by
@@ -383,7 +389,7 @@ theorem lineConfAux_range {C : ℕ} {probs : List (List R)} (hp : ProbsL C probs
         refine ⟨by simp [h1], ?_⟩
         intro x hx
         rcases List.mem_cons.1 hx with rfl | hx
-        · exact labelConfidence_range hp hlc
+        · exact labelConfidence_range hB hp hlc
         · exact h2 x hx
 
 omit [IsStrictOrderedRing R] in
@@ -400,23 +406,25 @@ theorem transformer_rangeL {C : ℕ} {probs : List (List R)} (hp : ProbsL C prob
     exact hp.entry hr hi
   · cases hi
 
-theorem lineConfidence_rangeL {C : ℕ} {probs : List (List R)} (hp : ProbsL C probs)
+theorem lineConfidence_rangeL (hB : ∀ a a' : Nat, (Gen.Confidence.nextBorder (a : Int) (a' : Int)).toNat = (a + 1 + a') / 2)
+    {C : ℕ} {probs : List (List R)} (hp : ProbsL C probs)
     {labels alignment : List Nat} {cs : List R}
     (h : getLineConfidence (cops R) probs labels alignment = some cs) :
     cs.length = labels.length ∧ ∀ c ∈ cs, 0 ≤ c ∧ c ≤ 1 := by
   unfold getLineConfidence at h
   split at h
   · exact transformer_rangeL hp h
-  · exact lineConfAux_range hp _ _ _ _ _ _ h
+  · exact lineConfAux_range hB hp _ _ _ _ _ _ h
 
 omit [IsStrictOrderedRing R] in
 /-- one label is defined when its window contains the aligned frame -/
-theorem labelConfidence_defined {C : ℕ} (hC : 2 ≤ C) {probs : List (List R)} (hp : ProbsL C probs)
+theorem labelConfidence_defined (hB : ∀ a a' : Nat, (Gen.Confidence.nextBorder (a : Int) (a' : Int)).toNat = (a + 1 + a') / 2)
+    {C : ℕ} (hC : 2 ≤ C) {probs : List (List R)} (hp : ProbsL C probs)
     {labels al : List Nat} {i lb label a a' : Nat}
     (h1 : labels[i]? = some label) (h2 : al[i]? = some a) (h3 : al[i+1]? = some a')
     (hlab : label < C) (ha : a < probs.length) (haa : a < a') (hlb : lb ≤ a) :
     ∃ c, labelConfidence (cops R) probs labels al i lb = some (c, (a + 1 + a') / 2) := by
-  rw [labelConfidence_eq, h1, h2, h3]
+  rw [labelConfidence_eq hB, h1, h2, h3]
   dsimp only
   have hrow : probs[a]? = some probs[a] := List.getElem?_eq_getElem ha
   rw [hrow]
@@ -445,7 +453,8 @@ theorem labelConfidence_defined {C : ℕ} (hC : 2 ≤ C) {probs : List (List R)}
   exact ⟨_, rfl⟩
 
 omit [IsStrictOrderedRing R] in
-theorem lineConfAux_defined {C : ℕ} (hC : 2 ≤ C) {probs : List (List R)} (hp : ProbsL C probs)
+theorem lineConfAux_defined (hB : ∀ a a' : Nat, (Gen.Confidence.nextBorder (a : Int) (a' : Int)).toNat = (a + 1 + a') / 2)
+    {C : ℕ} (hC : 2 ≤ C) {probs : List (List R)} (hp : ProbsL C probs)
     {labels al : List Nat} (hlen : al.length = labels.length + 1)
     (hlab : ∀ l ∈ labels, l < C) (hal : al.Pairwise (· < ·))
     (hT : ∀ j (hj : j < al.length), j < labels.length → al[j] < probs.length) :
@@ -460,20 +469,23 @@ theorem lineConfAux_defined {C : ℕ} (hC : 2 ≤ C) {probs : List (List R)} (hp
     have hi1 : i < al.length := by omega
     have hi2 : i + 1 < al.length := by omega
     have haa : al[i] < al[i + 1] := List.pairwise_iff_getElem.1 hal i (i + 1) hi1 hi2 (by omega)
-    obtain ⟨c, hc⟩ := labelConfidence_defined (R := R) hC hp (labels := labels) (al := al) (lb := lb)
+    obtain ⟨c, hc⟩ := labelConfidence_defined (R := R) hB hC hp (labels := labels) (al := al) (lb := lb)
       (List.getElem?_eq_getElem hi) (List.getElem?_eq_getElem hi1) (List.getElem?_eq_getElem hi2)
       (hlab _ (List.getElem_mem hi)) (hT i hi1 hi) haa (hlb hi1)
     obtain ⟨cs, hcs⟩ := ih (i + 1) ((al[i] + 1 + al[i + 1]) / 2) (by omega) (by intro _; omega)
     exact ⟨c :: cs, by rw [lineConfAux_succ, hc]; simp [hcs]⟩
 
 omit [IsStrictOrderedRing R] in
-theorem lineConfidence_definedL {C : ℕ} (hC : 2 ≤ C) {probs : List (List R)} (hp : ProbsL C probs)
+theorem lineConfidence_definedL (hB : ∀ a a' : Nat, (Gen.Confidence.nextBorder (a : Int) (a' : Int)).toNat = (a + 1 + a') / 2)
+    (hS : ∀ T : Nat, (Gen.Confidence.sentinel (T : Int)).toNat = max 1000 T)
+    {C : ℕ} (hC : 2 ≤ C) {probs : List (List R)} (hp : ProbsL C probs)
     {labels alignment : List Nat} (hl : labels.length = alignment.length)
     (hlab : ∀ l ∈ labels, l < C) (hal : alignment.Pairwise (· < ·))
     (hT : ∀ a ∈ alignment, a < probs.length) :
     ∃ cs, lineConfidence (cops R) probs labels alignment = some cs := by
   unfold lineConfidence
-  apply lineConfAux_defined hC hp (by simp [hl]) hlab
+  rw [hS]
+  apply lineConfAux_defined hB hC hp (by simp [hl]) hlab
   · rw [List.pairwise_append]
     refine ⟨hal, List.pairwise_singleton _ _, ?_⟩
     intro a ha b hb
@@ -488,7 +500,8 @@ theorem lineConfidence_definedL {C : ℕ} (hC : 2 ≤ C) {probs : List (List R)}
 
 /-! ### one-hot posteriors -/
 
-theorem labelConfidence_onehotL {C : ℕ} {probs : List (List R)} (hp : ProbsL C probs)
+theorem labelConfidence_onehotL (hB : ∀ a a' : Nat, (Gen.Confidence.nextBorder (a : Int) (a' : Int)).toNat = (a + 1 + a') / 2)
+    {C : ℕ} {probs : List (List R)} (hp : ProbsL C probs)
     {labels al : List ℕ} {i lastBorder : ℕ} {c : R} {nb : ℕ}
     (h : labelConfidence (cops R) probs labels al i lastBorder = some (c, nb))
     (hlab : ∀ row, probs[al.getD i 0]? = some row → row[labels.getD i 0]? = some 1)
@@ -497,7 +510,7 @@ theorem labelConfidence_onehotL {C : ℕ} {probs : List (List R)} (hp : ProbsL C
         (i + 1 < labels.length → j ≠ labels.getD (i + 1) 0) → row[j]? = some 0) :
     c = 1 := by
   obtain ⟨label, a, a', row, labelProb, other, h1, h2, h3, h4, h5, -, h7, rfl⟩ :=
-    labelConfidence_some h
+    labelConfidence_some hB h
   have e1 : labels.getD i 0 = label := by simp [List.getD_eq_getElem?_getD, h1]
   have e2 : al.getD i 0 = a := by simp [List.getD_eq_getElem?_getD, h2]
   rw [e1] at hlab hoth
